@@ -665,6 +665,11 @@ func planFor(prop, tier string) (*plan, error) {
 			p.F.Enclose = enc
 			ps = append(ps, p)
 		}
+		for _, nm := range []string{"ctx", "err", "tasks", "sched", "emitter", "v1", "v2", "startTime", "task0"} {
+			p := flowProg(exprConc(pg.Shape("chain2")), "S:resultname="+nm)
+			p.F.ResultName = nm
+			ps = append(ps, p)
+		}
 		// concurrency spelled as a constant, and absent (default worker count)
 		for _, c := range []string{"1", "2", ""} {
 			f := pg.Shape("fork")
@@ -785,7 +790,7 @@ func planFor(prop, tier string) (*plan, error) {
 		pl.scen = func(p *pg.Program) []genrt.Scenario {
 			var out []genrt.Scenario
 			ids := panickable(p)
-			kinds := []string{"string", "error", "runtime", "struct"}
+			kinds := []string{"string", "error", "runtime", "struct", "panicerror"}
 			ki := 0
 			for _, sub := range subsetsOf(ids, 2) {
 				for _, n := range ns {
@@ -917,10 +922,13 @@ func planFor(prop, tier string) (*plan, error) {
 					if i > 1 {
 						break
 					}
-					if p.Flow != nil && preds(p) != nil && id == preds(p)[0] {
-						continue
-					}
 					sc := withDec(base(p, n), []string{id}, probe.Cancel)
+					sc.COE = true
+					out = append(out, sc)
+				}
+				// a predicate that cancels the context and returns true: its task must not start
+				for _, pid := range preds(p) {
+					sc := withDec(base(p, n), []string{pid}, probe.Cancel)
 					sc.COE = true
 					out = append(out, sc)
 				}
@@ -1225,6 +1233,29 @@ func planFor(prop, tier string) (*plan, error) {
 			pp.F.Shadow = []string{nm}
 			mk(pp)
 		}
+		// an identifier argument whose variable is changed by the evaluation of the next argument
+		for _, pos := range []int{0, 1, -1} {
+			var bases []*pg.Program
+			for _, n := range []string{"chain2", "multi"} {
+				bases = append(bases, flowProg(exprConc(pg.Shape(n)), "MUT:"+n))
+			}
+			if fb := pg.WithPredFallback(pg.Shape("chain2"), nil, 2); len(fb) > 0 {
+				for _, f := range fb {
+					bases = append(bases, flowProg(exprConc(f), "MUT:fallback"))
+				}
+			}
+			for _, par := range pg.Pars(1, false) {
+				if par.Items[0].Kind == "slice" || par.Items[0].Kind == "map" {
+					q := par.Clone()
+					q.Conc = "expr"
+					bases = append(bases, parProg(q, "MUT:par"))
+				}
+			}
+			for _, b := range bases {
+				b.F.IdentArg, b.F.IdentPos, b.F.MutAfter = "pv", pos, true
+				ps = append(ps, b)
+			}
+		}
 		// the same directives placed so that their arguments straddle the line
 		// 9/10 and 99/100 boundaries (positions are part of generated names)
 		var padded []*pg.Program
@@ -1255,7 +1286,15 @@ func planFor(prop, tier string) (*plan, error) {
 		pl.scen = func(p *pg.Program) []genrt.Scenario {
 			sc := base(p, 2)
 			sc.COE = true
-			return []genrt.Scenario{sc}
+			out := []genrt.Scenario{sc}
+			if p.Fam == "MUT:fallback" {
+				for i, t := range p.Flow.Tasks {
+					if t.Fallback {
+						out = append(out, withDec(sc, []string{pg.TaskID(p.ID, i)}, probe.Fail))
+					}
+				}
+			}
+			return out
 		}
 	case "C18":
 		var ps []*pg.Program
